@@ -505,10 +505,21 @@ impl ThreadPool {
     /// Shuts down the `ThreadPool`. (The parent [`ThreadGroup`] is
     /// *not* shut down.)
     pub fn shut_down(&self) {
+        // The group's records stay locked until the pool is marked as
+        // shutting down, so that a concurrent ThreadGroup::shut_down
+        // cannot return while this pool still accepts tasks. The pool
+        // may already be gone from the group's collection (the group
+        // was shut down, or this is a repeated call).
         let mut group_records = self.group.records.lock().unwrap();
-        group_records.pools.remove(self.key);
-        drop(group_records);
+        let listed = group_records
+            .pools
+            .get(self.key)
+            .map_or(false, |pool| std::ptr::eq(Arc::as_ptr(pool), self));
+        if listed {
+            group_records.pools.remove(self.key);
+        }
         self.shut_down_without_removing();
+        drop(group_records);
     }
 
     /// Shuts down the `ThreadPool`, without removing it from its parent
